@@ -9,6 +9,18 @@ NOTES = ("Technique family: static analysis only. Every check extracts the progr
 _TB = ("Trusted: rustc nightly front end (HIR/MIR, types, trait resolution), the hcx export, the rule tables. ")
 
 CLAIMED = {
+    "C08": {
+        "text": "Decides a necessary condition of exactness for all public primitives of util::basic, "
+                "util::uintsmallmod and util::number_theory: every non-constant output depends (data or control) on "
+                "the contents of every value operand at every normal return, in/out operands are not killed before "
+                "they are read, and no out-parameter is read before it is written. An output that ignores an operand "
+                "on a path whose condition does not fix that operand cannot equal the named operation.",
+        "note": _TB + "Not decided: exactness itself (Barrett estimates, carries, quotient digits) — a solver or "
+                "enumeration question, which is a different technique family. Callees are modelled by weak updates "
+                "with a short table of strong kills; loops are assumed to run at least once for the written-before-read clause.",
+        "technique": "forward data+control dependency analysis over typed HIR (operand relevance, strong kills, read-before-write)",
+        "design_ref": "DESIGN.md §3 R-DEPEND, §4 C08",
+    },
     "C15": {
         "text": "Decides, for every call site in the serialization API's call tree (all functions of the local "
                 "*Serializable* trait impls and inherent serialize*/deserialize* functions plus their callees, "
@@ -74,7 +86,7 @@ NOT_APPLICABLE = {
     "C01": _NYB, "C02": _NYB, "C04": _NYB,
     "C07": "every clause compares a reported integer with exact big-integer arithmetic on runtime phase/noise "
            "values; no necessary condition is visible in the shape of the code (DESIGN.md §5)",
-    "C08": _NYB, "C09": _NYB, "C10": _NYB, "C11": _NYB, "C12": _NYB, "C13": _NYB, "C14": _NYB,
+    "C09": _NYB, "C10": _NYB, "C11": _NYB, "C12": _NYB, "C13": _NYB, "C14": _NYB,
     "C16": _NYB, "C18": _NYB,
     "C19": "every clause is about where coefficients land as a function of runtime indices and counts; static "
            "shape rules do not bound them (DESIGN.md §5)",
